@@ -30,6 +30,7 @@ EXPLANATION = (
     "the read, and the stop test evaluated at the boundary counters; by induction chunk k is [kC,(k+1)C), i.e. "
     "consecutive, non-overlapping and of width C (Python slice clipping gives the tail). R3 counts the passes over the "
     "source in the catalog constructors and the ingest pipelines."
+    ' R5 (progress of while loops), R6 (options forwarded), R7: every attribute that producing a chunk assigns or mutates in place is re-initialised by what __iter__ runs first.'
 )
 ASSUMPTIONS = [
     "Python / numpy / h5py / pandas slice clipping: x[a:b] with b > len(x) returns the tail, never wraps",
